@@ -192,17 +192,72 @@ class Origins:
             return ("HEAD", D)
         return None
 
+    def _iterated_local(self, X, depth=0):
+        """root region L when X is (a reference to) an element of the buffer of the local Vec L reached by iterating over
+        it: an item of `&L` / L.iter(), an element `chunk[k]` of an item of L.chunks_exact(n) / L.chunks(n), an item of
+        the `remainder()` of such a chunk iterator"""
+        if depth > 4 or not isinstance(X, tuple) or not X:
+            return None
+        if X[0] == "elem" and len(X) == 3:
+            return self._iterated_local(X[1], depth + 1)
+        site, path = payload_of(X)
+        if site is None or path != ():
+            return None
+        d, ev = self.iter_desc_of_site(site)
+        return self._buffer_iter_root(d, 0)
+
+    def _buffer_iter_root(self, d, depth):
+        an = self.an
+        if depth > 8 or d is None or d == "CYCLE" or not isinstance(d, tuple) or not d:
+            return None
+        if d[0] == "call" and d[3] and d[1] in ("slice::iter", "core::iter::traits::collect::IntoIterator::into_iter", "slice::chunks_exact",
+                                                "slice::chunks", "core::ops::deref::Deref::deref", "alloc::vec::Vec::as_slice",
+                                                "core::slice::iter::ChunksExact::remainder", "core::iter::traits::iterator::Iterator::by_ref"):
+            return self._buffer_iter_root(d[3][0], depth + 1)
+        if d[0] in ("at", "addr") and d[2] is None and d[1].startswith("L"):
+            ri = an.region_info.get(d[1])
+            if ri and ri["ty"].get("k") == "adt" and ri["ty"].get("name") == "Vec":
+                return d[1]
+            # a local holding an iterator value (let mut quads = v.chunks_exact(4))
+            vals = [t for (var, ver), t in an.term_of.items() if var == d[1] and t[0] != "opq"]
+            if len(vals) == 1:
+                return self._buffer_iter_root(vals[0], depth + 1)
+        return None
+
     def buffer_elem_origin(self, term):
         """load from the buffer of a local Vec that was filled by collect(<trait iterator>)"""
         an = self.an
         region = term[1]
         if "#buf" not in region:
-            return None
+            # read through an item of an iteration over the local buffer: (*item).k
+            inner = term[3]
+            path = ()
+            while inner is not None and inner[0] == "faddr" and len(inner) == 3 and str(inner[2]).isdigit():
+                path = (int(inner[2]),) + path
+                inner = inner[1]
+            root = self._iterated_local(inner) if inner is not None else None
+            if root is None:
+                return None
+            return self._collected_buffer_origin(root, path)
         root = region.split("#buf")[0]
         rest = region.split("#buf", 1)[1]
         path = tuple(int(x) for x in rest.split(".") if x.isdigit())
         if rest and not all(x.isdigit() for x in rest.split(".") if x):
             return None
+        if term[3] is not None and term[3][0] == "faddr":
+            # element reached through a chunk item: the component path is in the address
+            inner = term[3]
+            p2 = ()
+            while inner[0] == "faddr" and len(inner) == 3 and str(inner[2]).isdigit():
+                p2 = (int(inner[2]),) + p2
+                inner = inner[1]
+            r2 = self._iterated_local(inner)
+            if r2 is not None:
+                return self._collected_buffer_origin(r2, p2)
+        return self._collected_buffer_origin(root, path)
+
+    def _collected_buffer_origin(self, root, path):
+        an = self.an
         # value with which the local was initialised
         vals = [t for (var, ver), t in an.term_of.items() if var == root and t[0] != "opq"]
         if len(vals) != 1:
